@@ -4,6 +4,7 @@ import (
 	"fmt"
 	"os"
 	"path"
+	"path/filepath"
 	"strconv"
 	"strings"
 	"syscall"
@@ -44,6 +45,9 @@ func existingPaths(dump []string) []string {
 	}
 	return ps
 }
+
+// osProp: the property the osmodel stream runs under (selects the C06 observe twin)
+var osProp string
 
 func runOSCase(c OSCase, b *Batch, res *Result) error {
 	rc, err := newRealCase()
@@ -93,6 +97,64 @@ func runOSCase(c OSCase, b *Batch, res *Result) error {
 				t.MarkStart()
 				twinRC = t
 				twinFS, _ = backupfs.NewPrefixFS(backupfs.NewOSFS(), t.Root)
+				defer t.Close()
+			} else {
+				t.Close()
+			}
+		}
+	}
+	// C06 "cannot OBSERVE": a second twin, through its own HiddenFS, over a tree that differs from the first one
+	// only AT OR BELOW the hidden paths (other content, other modes, further entries; every second case
+	// also other presence: hidden entries removed).  Every operation must return the same on both
+	// (Props.C06.hidden_content_unobservable_…); the known exceptions: an operation whose route runs
+	// through a symlink (K-hidden-symlink-route), and — with different presence — Remove of the directory
+	// that directly contains a hidden path (K-hidden-existence-observable: ENOTEMPTY iff the entry exists)
+	var obsRC *RealCase
+	var obsFS backupfs.FS
+	obsPresence := false
+	if c.Hidden != nil && osProp == "C06" {
+		if t, terr := newRealCase(); terr == nil {
+			if t.Build("", c.Tree) == nil {
+				obsPresence = len(c.Tree)%2 == 1
+				for _, hp := range c.Hidden {
+					hp = path.Clean("/" + hp)
+					if hp == "/" {
+						continue
+					}
+					rp := t.Root + hp
+					fi, err := os.Lstat(rp)
+					if err != nil {
+						continue
+					}
+					// only what is LEXICALLY at or below the hidden path may differ: a hidden path whose own route
+					// runs through a symlink names a visible entry too
+					if real, err := filepath.EvalSymlinks(path.Dir(rp)); err != nil || real != path.Dir(rp) {
+						continue
+					}
+					// … and the visible parent keeps its timestamps
+					var pt time.Time
+					if pfi, err := os.Lstat(path.Dir(rp)); err == nil {
+						pt = pfi.ModTime()
+					}
+					switch {
+					case obsPresence:
+						_ = os.RemoveAll(rp)
+					case fi.IsDir():
+						_ = os.WriteFile(rp+"/zz-other", []byte("other"), 0o600)
+						_ = os.Chmod(rp, 0o700)
+					case fi.Mode().IsRegular():
+						_ = os.WriteFile(rp, []byte("other-content-of-another-length"), 0o600)
+					}
+					if !pt.IsZero() {
+						_ = os.Chtimes(path.Dir(rp), pt, pt)
+					}
+				}
+				t.MarkStart()
+				if p2, err := backupfs.NewPrefixFS(backupfs.NewOSFS(), t.Root); err == nil {
+					if h2, err := backupfs.NewHiddenFS(p2, c.Hidden...); err == nil {
+						obsRC, obsFS = t, h2
+					}
+				}
 				defer t.Close()
 			} else {
 				t.Close()
@@ -192,6 +254,25 @@ func runOSCase(c OSCase, b *Batch, res *Result) error {
 				}
 			}
 		}
+		if obsRC != nil {
+			oout := execOp(obsRC, obsFS, op)
+			res.count("hidden.observe.compared")
+			if strings.Join(out, "\x00") != strings.Join(oout, "\x00") {
+				known := ""
+				if route || opRouteHasLink(obsRC, op) {
+					known = "K-hidden-symlink-route"
+				} else if obsPresence && op.K == "remove" {
+					d := path.Clean("/" + op.A[0])
+					for _, hp := range c.Hidden {
+						if path.Dir(path.Clean("/"+hp)) == d {
+							known = "K-hidden-existence-observable"
+						}
+					}
+				}
+				res.violate(Violation{Property: "C06", Known: known, What: fmt.Sprintf("%v (hidden = %q) returns %.200q, and %.200q on a tree that differs only at or below the hidden paths: hidden content is observable", op, c.Hidden, out, oout), Case: c})
+				obsRC = nil // the visible parts may differ from here on
+			}
+		}
 		if c.Hidden != nil {
 			// a failure is attributed to the symlink-route finding only when this very operation's
 			// path really runs through a symlink (judged on the real tree before the call)
@@ -202,6 +283,7 @@ func runOSCase(c OSCase, b *Batch, res *Result) error {
 }
 
 func streamOS(cfg *Config, res *Result) error {
+	osProp = cfg.Prop
 	r := newRNG(cfg.Seed, "osmodel")
 	n := 300
 	if cfg.Tier == "thorough" {
@@ -448,7 +530,7 @@ func opRouteHasLink(rc *RealCase, op Op) bool {
 	// Remove, RemoveAll, Rename, Mkdir, Symlink, Lchown, Lstat, Readlink — they act on the link itself —,
 	// `final` for the calls that write or look through it)
 	followsFinal := map[string]bool{"creat": true, "creatread": true, "write": true, "chmod": true, "chown": true, "chtimes": true,
-		"stat": true, "read": true, "open": true, "mkdirall": true}[op.K]
+		"stat": true, "read": true, "fstat": true, "open": true, "mkdirall": true}[op.K]
 	for _, n := range names {
 		cur := rc.Root
 		comps := strings.Split(strings.Trim(path.Clean("/"+n), "/"), "/")
